@@ -113,4 +113,39 @@ example (t : Str) (cap : Nat) : SimIn (mkSc .str 128 t).inp (mkSc .buf cap t).in
 example : In.lookCh (mkSc .str 128 "a: b".toList).inp = .ok ('a', { (mkSc .str 128 "a: b".toList).inp with la := 1 })
     ∧ (∃ j', In.lookCh (mkSc .buf 16 "a: b".toList).inp = .ok ('a', j')) := ⟨rfl, ⟨_, rfl⟩⟩
 
+/-- **What is proved about the string back-end holds on the character-iterator back-end.** For the scanner
+    functions whose results are characterised by theorems on a string input — block scalars
+    (`C05.literal_block_scalar_token`, `C05.folded_block_scalar_token`), quoted scalars
+    (`C04.single_quoted_scalar_token`, `C09.quoted_string_rescans`), plain scalars (`C04.plain_scalar_line_token`),
+    anchors and aliases (`C03.anchor_token_carries_name`) — a buffered state that sees the same text (`Sim`:
+    every field equal, the inputs holding the same characters, whatever the buffer capacity and however much of
+    the text has been pulled into it) delivers, whenever both runs complete, the very same token: same type,
+    same text, same span. So the prescribed token is what the character-iterator back-end returns too. -/
+theorem string_theorems_transfer (s t : Sc) (h : Sim s t) :
+    (∀ lit sm a s' b t', scanBlockScalarBody lit sm s = .ok (a, s') → scanBlockScalarBody lit sm t = .ok (b, t') → a = b) ∧
+    (∀ single a s' b t', scanFlowScalar single s = .ok (a, s') → scanFlowScalar single t = .ok (b, t') → a = b) ∧
+    (∀ a s' b t', scanPlainScalarBody s = .ok (a, s') → scanPlainScalarBody t = .ok (b, t') → a = b) ∧
+    (∀ alias a s' b t', scanAnchor alias s = .ok (a, s') → scanAnchor alias t = .ok (b, t') → a = b) := by
+  refine ⟨?_, ?_, ?_, ?_⟩
+  · intro lit sm a s' b t' h1 h2
+    have := (RelS.scanBlockScalarBody lit sm).out s t h
+    rw [h1, h2] at this
+    exact this.1
+  · intro single a s' b t' h1 h2
+    have := (RelS.scanFlowScalar single).out s t h
+    rw [h1, h2] at this
+    exact this.1
+  · intro a s' b t' h1 h2
+    have := RelS.scanPlainScalarBody.out s t h
+    rw [h1, h2] at this
+    exact this.1
+  · intro alias a s' b t' h1 h2
+    have := (RelS.scanAnchor alias).out s t h
+    rw [h1, h2] at this
+    exact this.1
+
+/-- the hypothesis is met by a string state and its buffered twin over the same text, for every capacity -/
+example (text : Str) (cap : Nat) : Sim (mkSc .str 128 text) (mkSc .buf cap text) :=
+  ⟨⟨rfl, rfl, fun _ => rfl⟩, rfl⟩
+
 end SaphyrModel.C10
